@@ -18,11 +18,22 @@ pub fn clock_override() -> Option<u64> {
     clock.and_then(|clock| clock())
 }
 
-/// A scheduling point without a clock read: calls the installed clock function (if any) and
-/// ignores its value, so a check that owns the schedule through it can also switch threads
-/// between two atomic steps.
-pub fn sched_point() {
-    let _ = clock_override();
+type Sched = Arc<dyn Fn(&'static str) + Send + Sync>;
+
+static SCHED: RwLock<Option<Sched>> = RwLock::new(None);
+
+/// Installs (or with `None` removes) a function called at named points between two atomic
+/// steps of the circuit breaker's transitions, on the thread that reaches the point, so a
+/// check that owns the schedule can switch threads there.
+pub fn set_sched(sched: Option<Sched>) {
+    *SCHED.write().unwrap_or_else(|e| e.into_inner()) = sched;
+}
+
+pub fn sched_point(point: &'static str) {
+    let sched = SCHED.read().unwrap_or_else(|e| e.into_inner()).clone();
+    if let Some(sched) = sched {
+        sched(point);
+    }
 }
 
 type Gate = Arc<dyn Fn(&'static str) -> futures::future::BoxFuture<'static, ()> + Send + Sync>;
